@@ -182,7 +182,8 @@ def dataset_cases(draw, meshes_as_on_disk=False):
                     "dtype": "f8" if isinstance(step, float) else draw(st.sampled_from(["f8", "i4"])),
                     "calendar": draw(st.sampled_from([None, None, "standard", "gregorian",
                                                       "proleptic_gregorian"])),
-                    "as": time_as}
+                    "as": time_as,
+                    "bounds": draw(st.integers(0, 2)) == 0}
     spec["extra"] = {tdim: nt}
     shapes = specs.grid_shapes(spec)
     n_grid = 1 if conv == "ugrid" else 2
@@ -313,6 +314,8 @@ def check_dataset(case, ctx):
         ctx.label("empty_time_dimension")
     if spec["time"].get("as") == "var":
         ctx.label("time_is_a_data_variable")
+    if spec["time"].get("bounds"):
+        ctx.label("time_bounds_variable")
     if retimed:
         ctx.label("retimed_series_with_integer_encoding")
     ctx.nontrivial(isinstance(off, int) and (off < 0 or abs(off) < 600 or off % 60 != 0))
